@@ -22,8 +22,9 @@ class FCtx(object):
         self.node = fref.node
         self.cls = fref.cls
         self.module = fref.module
-        self.ex = T.extract(fref.node)
+        self.ex = T.extract(fref.node, inliner=self._make_inliner(model, fref))
         self.events = self.ex.events
+        self.inlined = list(self.ex.inlined)
         for ev in self.events:
             if ev.kind == "unsupported":
                 raise AnalysisError("unsupported statement %s in %s (line %s)" % (ev.value[1], fref.qname, ev.lineno))
@@ -32,6 +33,73 @@ class FCtx(object):
         if fref.cls is not None and args and fref.node.name not in fref.cls.staticmethods:
             self.selfname = args[0].arg
         self.params = [a.arg for a in args]
+
+    @staticmethod
+    def _make_inliner(model, fref):
+        """calls to repo functions that the rules do not know (helpers introduced by a refactoring) are inlined"""
+        from .known_funcs import KNOWN_FUNCS
+        selfname = None
+        if fref.cls is not None and fref.node.args.args and fref.node.name not in fref.cls.staticmethods:
+            selfname = fref.node.args.args[0].arg
+
+        def bind(fn, args, kws, first=None):
+            params = [a.arg for a in fn.args.args]
+            if fn.args.vararg or fn.args.kwarg or fn.args.kwonlyargs or any(a[0] == "starred" for a in args) or any(k == "**" for k, v in kws):
+                return None
+            env = {}
+            if first is not None:
+                if not params:
+                    return None
+                env[params[0]] = first
+                params = params[1:]
+            if len(args) > len(params):
+                return None
+            for p_, a in zip(params, args):
+                env[p_] = a
+            for k, v in kws:
+                if k not in params or k in env:
+                    return None
+                env[k] = v
+            defaults = fn.args.defaults
+            dparams = params[len(params) - len(defaults):] if defaults else []
+            for p_, d in zip(dparams, defaults):
+                if p_ not in env:
+                    if isinstance(d, ast.Constant):
+                        env[p_] = ("const", d.value)
+                    else:
+                        return None
+            if set(params) - set(env):
+                return None
+            return env
+
+        def generator(fn):
+            return any(isinstance(n, (ast.Yield, ast.YieldFrom)) for n in ast.walk(fn))
+
+        def inliner(func, args, kws):
+            target = None
+            first = None
+            if func[0] == "global":
+                r = model.resolve_name(fref.module, func[1])
+                if r and r[0] == "func" and r[1].cls is None:
+                    target = r[1]
+            elif func[0] == "attr" and selfname is not None and func[1] == ("param", selfname) and fref.cls is not None:
+                lk = fref.cls.lookup(func[2])
+                if lk and func[2] not in lk[0].properties:
+                    target = FuncRef(lk[0].module, lk[0], lk[1])
+                    if func[2] not in lk[0].staticmethods:
+                        first = func[1]
+                    # a method overridden in a subclass is dispatched dynamically: do not inline
+                    if any(func[2] in c.methods and c is not lk[0] for c in model.subclasses(fref.cls)):
+                        target = None
+            if target is None or target.qname in KNOWN_FUNCS or target.node is fref.node or generator(target.node):
+                return None
+            if target.node.decorator_list and any((dotted(d) or "") not in ("staticmethod",) for d in target.node.decorator_list):
+                return None
+            env = bind(target.node, list(args), list(kws), first)
+            if env is None:
+                return None
+            return target.node, env, target.qname
+        return inliner
 
     @classmethod
     def get(cls, model, fref):
